@@ -1,6 +1,6 @@
 #!/usr/bin/env python3
 import json, glob, jsonschema
-jsonschema.validate(json.load(open('/verif/MANIFEST.json')), json.load(open('/root/.vp/MANIFEST.schema.json'))); print('manifest valid')
+jsonschema.validate(json.load(open('MANIFEST.json')), json.load(open('/root/.vp/MANIFEST.schema.json'))); print('manifest valid')
 s = json.load(open('/root/.vp/EVIDENCE.schema.json'))
-for f in sorted(glob.glob('/verif/evidence/*.json')):
+for f in sorted(glob.glob('evidence/*.json')):
     jsonschema.validate(json.load(open(f)), s); print(f, 'valid')
